@@ -394,6 +394,9 @@ Definition dec_cfg (l : list Z) : cfg :=
      memResp := d (znth l 2) DefaultMemBytes; maxResp := d (znth l 3) (-1);
      retry := if znth l 4 =? 0 then None else Some (fst (dec_pred (length l) (skipn 5 l))) |}.
 
+(* tags 7.. all denote an event without effect on what the buffer does: 7 Flush (bufferWriter is no Flusher), 8 in-place edit
+   of header values of the handler's copy, 9 req.Method of the copy rewritten, 10 the request's context cancelled while the
+   handler runs *)
 Definition dec_event (t a b : Z) : event :=
   if t =? 0 then ESetHeader a b else if t =? 1 then EWriteHeader a else if t =? 2 then EWrite a b
   else if t =? 3 then EReadBody a else if t =? 4 then EScribbleHeader a b else if t =? 5 then EScribbleURL a
